@@ -106,3 +106,32 @@ Proof. exact (fun N Ap Aj H1 H2 H3 seed Hs order0 Ho => bfs_safe N Ap Aj H1 H2 H
 Print Assumptions C17_breadth_first_search_stays_in_bounds.
 Example C17_bfs_chk_detects_bad_column : bfs_chk 2 [0; 1; 2] [1; 2] 0 [0; 0] = None.
 Proof. vm_compute. reflexivity. Qed.
+
+(* rs_cf_splitting, UNBOUNDED (the "//invalid write!" site; bucket arrays of max(2*max lambda, n+1) entries and the
+   guard lambda >= n-1): on every pair of structurally valid CSR patterns S, T with column indices below n (they
+   need not be transposes of each other, nor symmetric) and every nonnegative influence vector, for any number of
+   vertices, the bounds-checked twin never reports an access outside lambda, interval_ptr, interval_count,
+   index_to_node, node_to_index, splitting, Sp, Sj, Tp, Tj or influence, and returns the kernel model's result.
+   The proof keeps the bucket invariant (sorted, gap-free partition of the unvisited positions) through the counting
+   sort, incr_lambda, decr_lambda and the removal of the top node. *)
+Require Import PV.Proofs.RsSafe.
+Theorem C17_rs_splitting_stays_in_bounds : forall (N : nat) (Sp Sj Tp Tj infl : list Z),
+  valid_csr N Sp Sj -> valid_csr N Tp Tj -> (N <= length infl)%nat ->
+  (forall i, 0 <= i < Z.of_nat N -> 0 <= get infl i) ->
+  rs_cf_splitting_chk (Z.of_nat N) Sp Sj Tp Tj infl = Some (rs_cf_splitting (Z.of_nat N) Sp Sj Tp Tj infl).
+Proof. exact rs_chk_safe. Qed.
+Print Assumptions C17_rs_splitting_stays_in_bounds.
+(* the hypotheses are satisfiable (a nonsymmetric pattern on 4 vertices, T its transpose) *)
+Example C17_rs_valid_example :
+  let Sp := [0; 2; 3; 3; 5] in let Sj := [1; 2; 2; 0; 1] in let Tp := [0; 1; 3; 5; 5] in let Tj := [3; 0; 3; 0; 1] in
+  valid_csr 4 Sp Sj /\ valid_csr 4 Tp Tj /\
+  rs_cf_splitting_chk 4 Sp Sj Tp Tj [0; 0; 0; 0] = Some (rs_cf_splitting 4 Sp Sj Tp Tj [0; 0; 0; 0]).
+Proof.
+  cbv zeta. assert (V : forall P J, length P = 5%nat -> length J = 5%nat ->
+     forallb (fun i => (0 <=? get P i) && (get P i <=? get P (i + 1)) && (get P (i + 1) <=? 5)) [0; 1; 2; 3] = true ->
+     forallb (fun k => (0 <=? get J k) && (get J k <? 4)) [0; 1; 2; 3; 4] = true -> valid_csr 4 P J).
+  { intros P J LP LJ H1 H2. rewrite forallb_forall in H1, H2. split; [rewrite LP; lia|]. split.
+    - intros i Hi. assert (Hin : In i [0; 1; 2; 3]) by (cbn; lia). specialize (H1 i Hin). rewrite LJ. lia.
+    - intros k Hk. rewrite LJ in Hk. assert (Hin : In k [0; 1; 2; 3; 4]) by (cbn; lia). specialize (H2 k Hin). lia. }
+  split; [apply V; reflexivity|]. split; [apply V; reflexivity|]. vm_compute. reflexivity.
+Qed.
